@@ -278,7 +278,9 @@ func copyAddresses(list []*mail.Address) []*mail.Address {
 
 // Common preparation for calling Lua functions.
 func (h *Host) prepareInbucketFuncCall(funcName string) (logger zerolog.Logger, ls *lua.LState, ib *Inbucket, ok bool) {
-	logger = h.logContext.Str("event", funcName).Logger()
+	// With() copies the context: appending to the shared h.logContext directly would write into
+	// the same buffer from every session that calls a handler at the same time.
+	logger = h.logContext.Logger().With().Str("event", funcName).Logger()
 
 	ls, err := h.pool.getState()
 	if err != nil {
